@@ -1362,6 +1362,25 @@ class NLargest(ReductionConstantDim):
             return {}
         return {"columns": self._columns}
 
+    def _simplify_up(self, parent, dependents):
+        if isinstance(parent, Projection):
+            if self.frame.ndim < 2 or self._columns is None:
+                return
+            # the ordering columns must survive a column selection and the
+            # frame has to stay two-dimensional
+            columns = determine_column_projection(
+                self, parent, dependents, additional_columns=self._columns
+            )
+            if not isinstance(columns, list):
+                columns = [columns]
+            columns = [col for col in self.frame.columns if col in columns]
+            if columns == self.frame.columns:
+                return
+            return type(parent)(
+                type(self)(self.frame[columns], *self.operands[1:]),
+                parent.operand("columns"),
+            )
+
     @property
     def chunk_kwargs(self):
         return {"n": self.n, **self._columns_kwarg()}
